@@ -271,3 +271,37 @@ func H_Perp_Open_Long_Healthy() { h_c09.H_Open_Long_UsdcCollateral() }
 //vrf:cover open-ok
 //vrf:max-paths 3000
 func H_Perp_Open_Short_Healthy() { h_c09.H_Open_Short() }
+
+// a successful open onto an existing position of the same owner (consolidation) leaves the merged position
+// with health strictly above the safety factor, recomputed here from the stored position (not read from it)
+//vrf:cover open-ok
+//vrf:bound 1 existing position (LONG/uusdc or SHORT) of arbitrary health, consolidating open of the same side by its owner: symbolic collateral, leverage in [1, 10], swap rate; same block as the last settlement
+//vrf:max-paths 3000
+func H_Perp_OpenConsolidate_Healthy() {
+	pos := pickSide()
+	w := setup(pos)
+	env, ctx := w.env, w.env.Ctx
+	coll := vrf.Int("newCollateral")
+	vrf.Assume(coll.IsPositive())
+	vrf.Assume(coll.LTE(sdkmath.NewIntWithDecimal(1, 18)))
+	env.W.SetBal(owner, usdc, coll)
+	lev := vrf.Dec("leverage")
+	vrf.Assume(lev.GTE(sdkmath.LegacyOneDec()))
+	vrf.Assume(lev.LTE(sdkmath.LegacyNewDec(10)))
+	msg := &perptypes.MsgOpen{Creator: owner.String(), Position: pos, Leverage: lev, TradingAsset: atom, Collateral: sdk.Coin{Denom: usdc, Amount: coll},
+		TakeProfitPrice: w.mtp.TakeProfitPrice, StopLossPrice: sdkmath.LegacyZeroDec(), PoolId: 1}
+	res, err := env.Perp.Open(ctx, msg)
+	if err != nil {
+		return // failed transaction: rolled back by baseapp
+	}
+	vrf.Cover("open-ok")
+	vrf.Assert(res.Id == 1, "C10 consolidate: the open is merged into the owner's existing position")
+	m, gerr := env.Perp.GetMTP(ctx, owner, 1)
+	vrf.Assert(gerr == nil, "C10 consolidate: the merged position is stored")
+	ammPool, _ := env.Amm.GetPool(ctx, 1)
+	h, herr := env.Perp.GetMTPHealth(ctx, m, ammPool, usdc)
+	vrf.Assert(herr == nil, "C10 consolidate: health of the merged position is computable")
+	if herr == nil {
+		vrf.Assert(h.GT(perptypes.DefaultParams().SafetyFactor), "C10 consolidate: a successful consolidating open leaves the merged position's health strictly above the safety factor")
+	}
+}
